@@ -150,6 +150,17 @@ func goStructPut(obj *object, name string, value Value, throw bool) {
 
 func goStructMarshalJSON(obj *object) json.Marshaler {
 	goObj := obj.value.(*goStructObject)
+	// A Marshaler with a pointer receiver is only in the method set of the pointer.
+	switch {
+	case goObj.value.Kind() == reflect.Ptr && !goObj.value.IsNil():
+		if marshaler, ok := goObj.value.Interface().(json.Marshaler); ok {
+			return marshaler
+		}
+	case goObj.value.CanAddr():
+		if marshaler, ok := goObj.value.Addr().Interface().(json.Marshaler); ok {
+			return marshaler
+		}
+	}
 	goValue := reflect.Indirect(goObj.value).Interface()
 	marshaler, _ := goValue.(json.Marshaler)
 	return marshaler
